@@ -88,6 +88,8 @@ type Check[C any] struct {
 	Run      func(C) *Violation
 	// Classify reports whether the case is non-trivial by the property's rule and its classes.
 	Classify func(C) (bool, []string)
+	// After (optional) reports classes measured while the case ran.
+	After func(C) []string
 }
 
 func (c Check[C]) key() string { return c.Property + "/" + c.Stage }
@@ -158,6 +160,11 @@ func (c Check[C]) Rapid(t *testing.T) {
 		col.Case(cs, nt, classes, func() any { return sampleOf(cs) })
 		v := c.Run(cs)
 		if v == nil {
+			if c.After != nil {
+				for _, cl := range c.After(cs) {
+					col.Class(cl, 1)
+				}
+			}
 			return
 		}
 		if isKnown(v) {
